@@ -12,7 +12,7 @@ def harnesses(tier):
     OPS = ['init', 'token_new', 'drain', 'free']
     for i, op in enumerate(OPS):
         hs.append(dict(name='c18_step_' + op, src='c18/proto.c', defs=dict(OP=i, NOBJ=4, MMD6_VERIF_POOL_OBJECTS=4),
-                       units=['repo:object_pool.c', 'repo:stack.c'], unwind=6, timeout=900, mem_gb=8,
+                       units=['repo:object_pool.c', 'repo:stack.c'], unwind=6, timeout=900, mem_gb=8, slice=True,
                        bounds='4-object slabs, <= 2 live slabs, any use count 0..999, any fill level',
                        desc='protocol step %s from an arbitrary valid protocol state' % op))
     if tier == 'thorough':
